@@ -301,7 +301,11 @@ class BaseAugmentedLagrangian(BaseOptimizationLibrary):
         for constraint in self._problem.constraints.get_originals():
             if constraint.name in sub_problem_constraints:
                 sub_problem.constraints.append(constraint)
-        sub_problem.preprocess_functions(is_function_input_normalized=normalize)
+        # N.B. the functions of the sub-problem are pre-processed by the sub-algorithm
+        # according to its own ``normalize_design_space`` setting;
+        # pre-processing them here with the setting of the main algorithm
+        # would make the sub-algorithm pass normalized values
+        # to functions expecting unnormalized ones (or conversely).
 
         if self._update_options_callback is not None:
             self._update_options_callback(self._sub_problems, sub_algorithm_settings)
